@@ -478,8 +478,8 @@ func (t *wScreen) Resize(int, int, int, int) {}
 // There isn't a "default terminal" to go back to.
 func (t *wScreen) Suspend() error {
 	t.Lock()
+	defer t.Unlock()
 	if !t.running {
-		t.Unlock()
 		return nil
 	}
 	t.running = false
@@ -492,6 +492,7 @@ func (t *wScreen) Suspend() error {
 
 func (t *wScreen) Resume() error {
 	t.Lock()
+	defer t.Unlock()
 
 	if t.running {
 		return errors.New("already engaged")
@@ -503,7 +504,6 @@ func (t *wScreen) Resume() error {
 
 	js.Global().Set("onKeyEvent", js.FuncOf(t.onKeyEvent))
 
-	t.Unlock()
 	return nil
 }
 
